@@ -363,6 +363,19 @@ func phaseHandshake(r *vk.Run) {
 		r.Set("observation_honest_handshake_when_both_peer_messages_arrive_in_one_read", fmt.Sprintf("err=%v (shareEphPubKey decodes through a throw-away bufio.Reader, see detection/C18.md)", o.res.err))
 	}
 
+	// ---- observation (cryptographic, outside the bound): the neutral-element ed25519 key ----
+	if modelOK {
+		x := sess[0]
+		var weak crypto.PubKeyEd25519
+		var sig crypto.SignatureEd25519
+		weak[0], sig[0] = 1, 1 // A = R = the neutral element, S = 0: verifies for every message in x/crypto's ed25519
+		bz, err := conn.VerifC18EncodeAuthSig(weak, sig)
+		if err == nil {
+			o := runScript(&hsCase{class: "none", seedA: x.seedA, segs: [][]byte{x.bSegs[0], frame(bz)}})
+			r.Set("observation_small_order_ed25519_key_with_fixed_signature", fmt.Sprintf("err=%v (a key nobody holds a private key for; property of the signature library, not counted)", o.res.err))
+		}
+	}
+
 	classes := map[string]bool{}
 	accepted, rejected := 0, 0
 	for k, n := range counts {
